@@ -115,7 +115,7 @@ class HdrGen:
             elif k == 4:
                 out.append(('authorization', rng.choice(['Basic abc', '', 'Bearer ' + 'x' * 30])))
             elif k == 5:
-                out.append(('te', rng.choice(['trailers', 'Trailers'])))
+                out.append(('te', rng.choice(['trailers', 'Trailers', 'tRaIlErS'])))
             elif k == 6:
                 out.append(('Content-Type', 'text/plain'))
             elif k == 7:
@@ -481,6 +481,10 @@ class Gen:
         else:
             self.call('c', 'initiate_connection')
             self.call('s', 'initiate_connection')
+            if rng.random() < P.get('bad_preface', 0.0):
+                # the very first bytes a server sees are not the client preface (a corrupted byte in it)
+                self.ex({'ev': 'flush', 'ep': 'c', 'n': None})
+                self.ex({'ev': 'fault', 'kind': 'flip', 'dir': 'c2s', 'off': rng.randrange(24), 'xor': rng.choice([1, 0x20, 0xff])})
         if P.get('long'):
             self.settle()
             return self._run_long()
@@ -1246,7 +1250,7 @@ class Gen:
         elif k == 8:
             if self.P.get('no_over_ack'):
                 return      # applications that acknowledge more than they received are outside C05's premise
-            self.call(ep, 'acknowledge_received_data', n=rng.choice([0, 1, 100, -1, 2 ** 31]), sid=sid)
+            self.call(ep, 'acknowledge_received_data', n=rng.choice([0, 1, 100, -1, 2 ** 31, 32768, 65535, 40000]), sid=sid)
         elif k == 9:
             key = rng.choice(list(BAD_SETTING_VALUES))
             d = {key: rng.choice(BAD_SETTING_VALUES[key])}
